@@ -15,7 +15,10 @@ RULE = ('scope/seq: nested with-programs (depth <= 6) over string / a/b shorthan
         'generated program of enter / exit / observe / scoped-call steps, stepped one step at a time by a central '
         'scheduler following a generated schedule (thorough: every interleaving of 2 threads x <= 4 steps). '
         'non-trivial(seq) = depth >= 3 with an invalid entry or a raising exit below depth 2; '
-        'non-trivial(sched) = >= 2 threads with open blocks at the same time and a context switch inside a block.')
+        'non-trivial(sched) = >= 2 threads with open blocks at the same time and a context switch inside a block. '
+        'scope/alias (implementation only): 1-2 real threads entering fresh, captured (`with .. as s`) and re-used list '
+        'objects and editing those lists (append / item assignment / pop / clear) in between; every observation must be the '
+        'one the thread\'s own entries and exits prescribe.')
 TRUSTED_BASE = c01.TRUSTED_BASE + [
     'thread half: model coq/Model/ScopeThreads.v (one stack per thread id); atomic steps are API calls '
     '(enter / exit / observe / call) — preemption inside a step is not modelled',
@@ -385,4 +388,241 @@ class SchedEngine(Engine):
             'tags': ['threads%d' % len(workers), 'len%d' % (len(case['schedule']) // 5 * 5)]}
 
 
-ENGINES = [SeqEngine(), SchedEngine()]
+# ----------------------------------------------------------------- scope lists as Python objects
+class AliasWorker(threading.Thread):
+  """runs one thread's steps of a `scope-list-aliasing` program, one step per release of `go`.  Next to the real gin it
+  keeps `ref`, the stack of scope VALUES the property text prescribes for this thread (compose() of the value each entry was
+  given at the moment of the entry; exits pop): nothing but this thread's own entries and exits touches it."""
+
+  def __init__(self, gin, probe, steps, shared, store):
+    super().__init__(daemon=True, name='worker')
+    self.gin, self.probe, self.steps, self.shared, self.store = gin, probe, steps, shared, store
+    self.go = threading.Semaphore(0)
+    self.done = threading.Semaphore(0)
+    self.out = []            # per step: None, or [actual, expected] for an observe
+    self.cms = []
+    self.ref = [[]]
+
+  def expected(self):
+    v = None
+    for i in range(len(self.ref[-1]) + 1):
+      v = self.store.get('/'.join(self.ref[-1][:i]), v)
+    return [list(self.ref[-1]), T('Unbound') if v is None else v]
+
+  def step(self, st):
+    gin, k = self.gin, st[0]
+    if k == 'enter':
+      src = st[1]
+      if src[0] == 'str':
+        arg = src[1]
+      elif src[0] == 'none':
+        arg = None
+      elif src[0] == 'new':                      # a list the caller builds and keeps in a variable
+        arg = self.shared[src[2]] = list(src[1])
+      else:                                      # ['var', name]: a list object held in a variable (captured or built earlier)
+        arg = self.shared.get(src[1])
+        if not isinstance(arg, list):
+          return T('Skipped')
+      new, ok = compose(self.ref[-1], list(arg) if isinstance(arg, list) else arg)
+      if not ok:
+        return T('Skipped')
+      cm = gin.config_scope(arg)
+      self.shared[st[2]] = cm.__enter__()        # `with gin.config_scope(arg) as <st[2]>:`
+      self.cms.append(cm)
+      self.ref.append(new)
+      return None
+    if k == 'exit':
+      if not self.cms:
+        return T('Skipped')
+      cm = self.cms.pop()
+      self.ref.pop()
+      if st[1]:
+        try:
+          cm.__exit__(KeyError, KeyError('boom'), None)
+        except KeyError:
+          pass
+      else:
+        cm.__exit__(None, None, None)
+      return None
+    if k == 'edit':                              # ordinary list operations on a list the program holds
+      v = self.shared.get(st[1])
+      if not isinstance(v, list):
+        return T('Skipped')
+      if st[2] == 'append':
+        v.append(st[3])
+      elif st[2] == 'set0' and v:
+        v[0] = st[3]
+      elif st[2] == 'pop' and v:
+        v.pop()
+      elif st[2] == 'clear':
+        del v[:]
+      elif st[2] == 'extend':
+        v.extend([st[3], st[3]])
+      return None
+    if k == 'observe':
+      try:
+        got = [list(gin.current_scope()), self.probe()]
+      except Exception as e:  # pylint: disable=broad-except
+        got = T('Err', type(e).__name__)
+      return [got, self.expected()]
+    raise AssertionError(st)
+
+  def run(self):
+    for st in self.steps:
+      self.go.acquire()
+      try:
+        o = self.step(st)
+      except Exception as e:  # pylint: disable=broad-except
+        o = T('Err', type(e).__name__ + ': ' + str(e)[:80])
+      self.out.append(o)
+      if len(self.out) == len(self.steps):
+        while self.cms:
+          try:
+            self.cms.pop().__exit__(None, None, None)
+          except Exception:  # pylint: disable=broad-except
+            pass
+      self.done.release()
+
+
+class AliasEngine(Engine):
+  """The lists that go into and come out of config_scope are ordinary Python objects in the caller's hands: the list passed
+  in (`config_scope(my_list)`, `config_scope(captured)`) and the list yielded (`with config_scope(..) as s`).  The property
+  makes the active scope a function of the thread's own entries and exits: an entry with a list replaces the scope by the
+  list's value at that moment, leaving a block restores exactly what was active before it, and nothing another thread does
+  changes it.  So whatever the program (or another thread) afterwards does to those list objects -- append, item assignment,
+  clear -- every observation must equal the one prescribed by the entries and exits alone.  Programs: 1-2 real threads stepped
+  by a fixed schedule; variables holding the lists are shared between the threads (that is how a captured scope is handed to
+  a worker).  Implementation only: the model has scope values, not list objects."""
+  name = 'scope-list-aliasing'
+  model = False
+
+  def budget(self, tier):
+    return 150 if tier == 'quick' else 3000
+
+  B = [['', 1], ['s1', 2], ['s1/s2', 3], ['s2', 4], ['s1/s3', 5], ['s3', 6]]
+
+  def corpus(self):
+    one = lambda steps: {'bindings': self.B, 'threads': [steps], 'schedule': [0] * len(steps)}
+    cases = []
+    for raising in (False, True):
+      for how in (['append', 's2'], ['set0', 's3'], ['clear', None]):
+        # re-enter a captured scope; the inner block edits the list it was given
+        cases.append(one([['enter', ['str', 's1'], 'a'], ['observe'], ['enter', ['var', 'a'], 'b'], ['edit', 'b'] + how,
+                          ['exit', raising], ['observe'], ['exit', False], ['observe']]))
+        # the same two levels deeper
+        cases.append(one([['enter', ['str', 's1'], 'a'], ['enter', ['str', 's3'], 'c'], ['enter', ['none'], 'd'],
+                          ['enter', ['var', 'a'], 'b'], ['edit', 'b'] + how, ['observe'], ['exit', raising], ['observe'],
+                          ['exit', False], ['observe'], ['exit', raising], ['observe'], ['exit', False], ['observe']]))
+        # the caller goes on using the list it passed in
+        cases.append(one([['enter', ['new', ['s1'], 'p'], 'y'], ['observe'], ['edit', 'p'] + how, ['observe'],
+                          ['enter', ['str', 's2'], 'z'], ['observe'], ['exit', raising], ['exit', False], ['observe']]))
+    for how in (['append', 's2'], ['set0', 's2'], ['clear', None]):
+      # a captured scope handed to a worker, which enters it and refines ITS scope
+      cases.append({'bindings': self.B,
+                    'threads': [[['enter', ['str', 's1'], 'a'], ['observe'], ['observe'], ['exit', False], ['observe']],
+                                [['enter', ['var', 'a'], 'w'], ['edit', 'w'] + how, ['observe'], ['exit', False], ['observe']]],
+                    'schedule': [0, 0, 1, 1, 1, 0, 1, 1, 0, 0]})
+    return cases
+
+  def gen_thread(self, rng, n, names):
+    steps, depth = [], 0
+    for _ in range(n):
+      r = rng.random()
+      if r < 0.35 and depth < 4:
+        x = rng.random()
+        y = rng.choice(names)
+        if x < 0.3:
+          src = ['str', rng.choice(ginm.SCOPES + ['s1/s2'])]
+        elif x < 0.4:
+          src = ['none']
+        elif x < 0.65:
+          src = ['new', [rng.choice(ginm.SCOPES) for _ in range(rng.randint(0, 2))], rng.choice(names)]
+        else:
+          src = ['var', rng.choice(names)]
+        steps.append(['enter', src, y])
+        depth += 1
+      elif r < 0.5 and depth > 0:
+        steps.append(['exit', rng.random() < 0.3])
+        depth -= 1
+      elif r < 0.75:
+        steps.append(['edit', rng.choice(names), rng.choice(['append', 'append', 'set0', 'pop', 'clear', 'extend']),
+                      rng.choice(ginm.SCOPES)])
+      else:
+        steps.append(['observe'])
+    return steps + [['observe']]
+
+  def gen(self, rng, tier):
+    names = ['a', 'b', 'c']
+    threads = [self.gen_thread(rng, rng.randint(3, 9), names) for _ in range(rng.randint(1, 2))]
+    sched = [i for i, t in enumerate(threads) for _ in t]
+    rng.shuffle(sched)
+    return {'bindings': self.B, 'threads': threads, 'schedule': sched}
+
+  def shrink(self, case):
+    for i in range(len(case['schedule'])):
+      t = case['schedule'][i]
+      k = case['schedule'][:i].count(t)
+      th = [list(x) for x in case['threads']]
+      del th[t][k]
+      yield {'bindings': case['bindings'], 'threads': th, 'schedule': case['schedule'][:i] + case['schedule'][i + 1:]}
+
+  def impl(self, case):
+    gin = C.fresh_gin()
+
+    @gin.configurable('f', module='m')
+    def f(a=None):
+      return a
+    store = {}
+    for sc, v in case['bindings']:
+      gin.bind_parameter((sc, 'm.f', 'a'), v)
+      store[sc] = v
+
+    def probe():
+      r = f()
+      return T('Unbound') if r is None else r
+    shared = {}
+    workers = [AliasWorker(gin, probe, st, shared, store) for st in case['threads']]
+    for w in workers:
+      w.start()
+    obs, fails = [], []
+    idx = [0] * len(workers)
+    # since a thread's last observation: did it leave a block / did it / did ANOTHER thread edit a list
+    fresh = {'exit': False, 'own_edit': False, 'other_edit': False}
+    since = [dict(fresh) for _ in workers]
+    edits = foreign = 0
+    for t in case['schedule']:
+      w = workers[t]
+      st = case['threads'][t][idx[t]]
+      idx[t] += 1
+      w.go.release()
+      if not w.done.acquire(timeout=20):
+        fails.append(('harness-timeout', repr(st)))
+        break
+      o = w.out[-1]
+      obs.append([t, o])
+      if isinstance(o, T) and o.tag == 'Err':
+        fails.append(('step-raised', 'thread %d step %r: %s' % (t, st, o.args[0])))
+      skipped = isinstance(o, T) and o.tag == 'Skipped'
+      if st[0] == 'exit' and not skipped:
+        since[t]['exit'] = True
+      if st[0] == 'edit' and not skipped:
+        edits += 1
+        for i, s in enumerate(since):
+          s['own_edit' if i == t else 'other_edit'] = True
+      if st[0] == 'observe':
+        got, want = o
+        if C.jsonable(got) != C.jsonable(want):
+          s = since[t]
+          kind = ('scope-not-restored' if s['exit'] else
+                  'scope-changed-by-other-thread' if s['other_edit'] and not s['own_edit'] else
+                  'scope-changed-without-entry-or-exit')
+          fails.append((kind, 'thread %d observes (scope, m.f.a) = %r; its own entries and exits prescribe %r (program %r, schedule %r)' %
+                        (t, C.jsonable(got), C.jsonable(want), case['threads'], case['schedule'])))
+        if since[t]['other_edit']:
+          foreign += 1
+        since[t] = dict(fresh)
+    return {'obs': obs, 'fails': fails[:2], 'nontrivial': edits > 0 and (len(workers) == 1 or foreign > 0),
+            'tags': ['threads%d' % len(workers), 'edits%d' % min(edits, 3)]}
+
+
+ENGINES = [SeqEngine(), SchedEngine(), AliasEngine()]
